@@ -109,8 +109,8 @@ theorem step_refused (cfg : Cfg) (s : State) (ev : Ev) (h : InvW cfg s) (hnc : n
       | some j => simp [noCrash] at hnc
       | none =>
         simp only [step, curWindow, (cleanShutdown_dir d m none).1, (cleanShutdown_dir d m none).2]
-        rw [diskWindow_store_window cfg d m.ssn m.window rfl L.size]
-        exact hr
+        rw [diskWindow_store_window cfg d m.ssn m.window rfl]
+        exact hr.reloaded
     | protect c =>
       cases c with
       | some j => simp [noCrash] at hnc
